@@ -16,8 +16,8 @@ ID = "C01"
 CASES = {"quick": 4500, "thorough": 60000}
 FLOOR = {"quick": 3000, "thorough": 40000}
 FLOOR_COUNTERS = {
-    "quick": {"threshold_stops": 200, "warm_links": 1000, "fits": 4000},
-    "thorough": {"threshold_stops": 800, "warm_links": 4000, "fits": 30000},
+    "quick": {"threshold_stops": 200, "warm_links": 1000, "fits": 4000, "estimators_with_a_past": 800, "small_unit_cases": 200},
+    "thorough": {"threshold_stops": 800, "warm_links": 4000, "fits": 30000, "estimators_with_a_past": 10000, "small_unit_cases": 3000},
 }
 RULE = (
     "case = (selector class x direction [9 variants, round-robin], matrix family, n_to_select form "
@@ -52,6 +52,10 @@ def gen(rng, tier, index):
     n, m = int(rng.integers(2, hi)), int(rng.integers(2, hi))
     kind = gens.pick(rng, gens.MATRIX_KINDS)
     X = gens.matrix(rng, n, m, kind)
+    unit = 1.0
+    if rng.random() < 0.25:  # the same data in small / large units (exact power of two)
+        unit = float(2.0 ** int(rng.integers(-26, 14)))
+        X = X * unit
     spec = {"dir": direction, "cls": cls, "kw": {}}
     axis = sel.axis_of(spec)
     N = X.shape[axis]
@@ -100,6 +104,16 @@ def gen(rng, tier, index):
             "reached": bool(rng.random() < 0.6),
             "u": float(rng.random()),
         }
+    decoy = None
+    if rng.random() < 0.3:
+        # the estimator object has a past: an earlier cold fit on other data of the same shape,
+        # possibly with a (relative) threshold that is switched off again afterwards
+        decoy = {
+            "X": rng.normal(size=X.shape) * unit * float(10.0 ** rng.uniform(-1, 1)),
+            "y": None if y is None else rng.normal(size=len(X)),
+            "n": int(rng.integers(lo, N + 1)),
+            "thr": gens.pick(rng, (None, ("relative", 0.5), ("relative", 0.05), ("absolute", 1e-3 * unit**2))),
+        }
     return {
         "spec": spec,
         "X": X,
@@ -107,7 +121,9 @@ def gen(rng, tier, index):
         "kind": kind,
         "chain": chain,
         "threshold": thr,
-        "Z": rng.normal(size=(3, m)),
+        "Z": rng.normal(size=(3, m)) * unit,
+        "unit": unit,
+        "decoy": decoy,
     }
 
 
@@ -213,6 +229,12 @@ def post_fit_contract(j, est, spec, X, y, seq, evs, n_to_select, Z=None, expect_
         j.ok("threshold stop gives fewer than implied", ns < E, (ns, E))
         t_type, t_val = est.score_threshold_type, est.score_threshold
         first = getattr(est, "first_score_", None)
+        cold = any(e["ev"] == "start" and e.get("mode") == "cold" for e in evs)
+        scored = [e for e in picks if e["scores"] is not None]
+        if t_type == "relative" and cold and scored:
+            e0 = scored[0]
+            ref0 = float(e0["scores"][e0["chosen"]]) if e0["chosen"] is not None else float(np.max(e0["scores"]))
+            j.ok("a relative threshold refers to the first score of THIS search", first is not None and float(first) == ref0, {"first_score_": first, "first_score_traced": ref0})
 
         def below(s):
             with np.errstate(all="ignore"):
@@ -236,6 +258,16 @@ def post_fit_contract(j, est, spec, X, y, seq, evs, n_to_select, Z=None, expect_
     else:
         S = [int(v) for v in seq[:rep]]
         k2 = sel.exhausted(spec, X, y, S)
+        if not k2:
+            # same mechanism without exhaustion: every score the argmax saw for the unselected items was
+            # zero (stale leverage scores of mutually orthogonal items), so it returned a masked item
+            kept = [e for e in picks if e["chosen"] is not None and e["scores"] is not None]
+            pos = rep - (len(seq) - len(kept))
+            if 0 <= pos < len(kept):
+                sc = np.asarray(kept[pos]["scores"], dtype=float)
+                un = np.setdiff1d(np.arange(N), S)
+                top = float(np.max(np.abs(sc))) if sc.size else 0.0
+                k2 = bool(len(un) and np.max(sc[un]) <= 1e-12 * max(top, 1e-300) and np.max(sc) <= 1e-12 * max(top, 1e-300) + 0.0)
         j.ok(
             "indices pairwise distinct",
             False,
@@ -278,6 +310,18 @@ def run(case, j):
     thr = _threshold_value(case)
     chain = case["chain"]
     j.tag(f"{spec['dir']}:{spec['cls']}", f"data:{case['kind']}", f"chain:{len(chain)}", f"thr:{case['threshold']['mode']}")
+    if case.get("unit", 1.0) != 1.0:
+        j.tag("unit:small" if case["unit"] < 1 else "unit:large")
+        if case["unit"] < 1e-4:
+            j.note("small_unit_cases")
+    dc = case.get("decoy")
+    if dc:
+        est.n_to_select = dc["n"]
+        if dc["thr"]:
+            est.score_threshold_type, est.score_threshold = dc["thr"][0], float(dc["thr"][1])
+        j.lib("fit:earlier-history", sel.fit, est, dc["X"], dc["y"], spec)
+        est.score_threshold, est.score_threshold_type = None, "absolute"
+        j.note("estimators_with_a_past")
     seq = []
     any_stop = False
     for li, link in enumerate(chain):
